@@ -253,13 +253,31 @@ func (s *settings) GetBySwampName(swampName name.Name) setting.Setting {
 	s.mu.RLock()
 	defer s.mu.RUnlock()
 
-	if len(s.patterns) > 0 {
-		for _, pi := range s.patterns {
-			// compare if the pattern is math with the swamp name
-			if swampName.ComparePattern(pi.GetPattern()) {
-				return pi
-			}
+	// Several registered patterns can match the same swamp (e.g. "s/r/w", "s/r/*", "s/*/w" and
+	// "s/*/*"). Map iteration order is random, so the first match must not decide: the most
+	// specific matching pattern wins. An exact realm outweighs an exact swamp, which makes the
+	// order total - two different matching patterns never get the same score.
+	var best setting.Setting
+	bestScore := -1
+	for _, pi := range s.patterns {
+		pattern := pi.GetPattern()
+		// compare if the pattern is math with the swamp name
+		if !swampName.ComparePattern(pattern) {
+			continue
 		}
+		score := 0
+		if pattern.GetRealmName() != "*" {
+			score += 2
+		}
+		if pattern.GetSwampName() != "*" {
+			score++
+		}
+		if score > bestScore {
+			best, bestScore = pi, score
+		}
+	}
+	if best != nil {
+		return best
 	}
 
 	// ha nem találunk olyan beállítást, ami a megadott mintához tartozik, akkor visszaadjuk az alapértelmezett beállítást
